@@ -107,6 +107,14 @@ func ruleSets() [][]model.Rule {
 			rule("log", func(r *model.Rule) { r.NotSrcSelector = "has(ns)" })},
 		{rule("allow", func(r *model.Rule) { r.SrcSelector = "profile == 'p0'" })},
 		{rule("deny", func(r *model.Rule) { r.DstSelector = "has(a) || has(ns)"; r.NotProtocol = protoP("tcp") })},
+		// positive OR-selector combined with a negated one: the "(%s) && (!(%s))" parentheses matter
+		{rule("allow", func(r *model.Rule) { r.SrcSelector = "has(a) || has(ns)"; r.NotSrcSelector = "a == 'x'" }),
+			rule("deny", func(r *model.Rule) {
+				r.Protocol = protoP("tcp")
+				r.DstSelector = "role == 'db' || has(b)"
+				r.NotDstSelector = "!has(a)"
+				r.DstPorts = namedPort("http")
+			})},
 	}
 }
 
@@ -221,6 +229,7 @@ func buildUniverse() []*entry {
 		pol("t2", f64(1), "all()", rs[8], nil, nil),
 		pol("t1", f64(5), "a == 'x' && has(b)", rs[9], rs[1], nil),
 		pol("default", nil, "all()", rs[1], nil, func(p *model.Policy) { p.PreDNAT = true; p.ApplyOnForward = true }),
+		pol("default", f64(20), "has(a)", rs[10], rs[10], nil),
 	)
 	add("pol:np-c", model.PolicyKey{Name: "np-c", Namespace: "ns", Kind: v3.KindNetworkPolicy},
 		pol("default", f64(10), "has(a)", rs[5], rs[4], func(p *model.Policy) { p.Namespace = "ns" }),
